@@ -1,6 +1,7 @@
 package main
 
 import (
+	"fmt"
 	"go/token"
 	"go/types"
 	"strings"
@@ -15,7 +16,9 @@ import (
 //	Fresh:  only entries of objects allocated during the call change
 type ModSet struct {
 	Top           bool
-	Locks         bool              // may acquire/release a sync lock (transitively)
+	Locks         bool // may acquire/release a sync lock (transitively)
+	TopWhy        string
+	EC            bool              // calls a value of an EC-framed function type (effects bounded by the EC frame)
 	FreshTop      bool              // unknown set of arrays, but only fresh objects are written
 	Arrays        map[string]string // name -> elem sort (as passed to Ctx.arr)
 	Fresh         map[string]string
@@ -34,8 +37,17 @@ func (m *ModSet) union(o *ModSet, freshToo bool) bool {
 		m.Locks = true
 		ch = true
 	}
+	if o.EC && !m.EC {
+		m.EC = true
+		ch = true
+	}
+	if o.FreshTop && !m.FreshTop {
+		m.FreshTop = true
+		ch = true
+	}
 	if o.Top && !m.Top {
 		m.Top = true
+		m.TopWhy = o.TopWhy
 		ch = true
 	}
 	for k, v := range o.Arrays {
@@ -65,6 +77,11 @@ type ModAnalysis struct {
 	declaredFinal    map[string][]string // field array -> allowed writer functions (from `final` clauses)
 	nonFinalWriters  map[string]map[string]bool
 	retFresh         map[*ssa.Function][]bool
+	ECArrays         map[string]string      // array name -> elem sort
+	Verified         map[*ssa.Function]bool // all FRAME obligations of the function were discharged in this run
+	allFns           []*ssa.Function
+	ecFuncTypes      map[string]bool
+	pureFuncTypes    map[string]bool
 	FinalAssumptions []string
 	MutatedGlobals   map[*ssa.Global]map[string]bool // package-level containers whose contents change after init
 	pureCache        map[*ssa.Function]*pureInfo
@@ -129,6 +146,23 @@ func (ma *ModAnalysis) run() {
 					if g, ok := s.Addr.(*ssa.Global); ok {
 						mutable[g] = true
 					}
+					// element/field of a package-level array or struct variable
+					root := s.Addr
+					for {
+						if fa, ok := root.(*ssa.FieldAddr); ok {
+							root = fa.X
+							continue
+						}
+						if ia, ok := root.(*ssa.IndexAddr); ok {
+							root = ia.X
+							continue
+						}
+						break
+					}
+					if g, ok := root.(*ssa.Global); ok && ma.w.isRepoPkg(g.Pkg.Pkg.Path()) {
+						mutable[g] = true
+						ma.noteMutatedGlobal(g, fn)
+					}
 				}
 				// address of a global escaping into a call: conservatively mutable unless sync primitive
 				if call, ok := ins.(ssa.CallInstruction); ok {
@@ -153,6 +187,7 @@ func (ma *ModAnalysis) run() {
 	}
 	ma.nonFinalField = map[string]string{}
 	ma.computeFinalFields(fns)
+	ma.resolveFrames()
 	if ma.sp != nil {
 		for _, fd := range ma.sp.Finals {
 			n := "H_" + sanitize(fd.Field)
@@ -206,10 +241,19 @@ func (ma *ModAnalysis) run() {
 			break
 		}
 	}
-	// direct effects + propagate to fixpoint
+	ma.allFns = fns
+	ma.Verified = map[*ssa.Function]bool{}
+	ma.propagate()
+}
+
+// propagate (re)computes the effect sets to a fixpoint.
+func (ma *ModAnalysis) propagate() {
+	for _, fn := range ma.allFns {
+		ma.sets[fn] = newModSet()
+	}
 	for iter := 0; iter < 50; iter++ {
 		changed := false
-		for _, fn := range fns {
+		for _, fn := range ma.allFns {
 			if ma.step(fn) {
 				changed = true
 			}
@@ -218,6 +262,14 @@ func (ma *ModAnalysis) run() {
 			break
 		}
 	}
+}
+
+// MarkVerified records functions whose frame was proved and recomputes the effect sets.
+func (ma *ModAnalysis) MarkVerified(fns []*ssa.Function) {
+	for _, f := range fns {
+		ma.Verified[f] = true
+	}
+	ma.propagate()
 }
 
 func (ma *ModAnalysis) step(fn *ssa.Function) bool {
@@ -273,6 +325,7 @@ func (ma *ModAnalysis) instrMods(fn *ssa.Function, ins ssa.Instruction, ms *ModS
 	case *ssa.Go, *ssa.Send, *ssa.Select:
 		if !ms.Top {
 			ms.Top = true
+			ms.TopWhy = fmt.Sprintf("concurrency instruction %T in %s", ins, ma.w.keyOfAny(fn))
 			ch = true
 		}
 	case *ssa.Defer:
@@ -290,9 +343,9 @@ func (ma *ModAnalysis) instrMods(fn *ssa.Function, ins ssa.Instruction, ms *ModS
 
 func (ma *ModAnalysis) mapMods(mt *types.Map, fresh int, add func(string, string, int)) {
 	ks, es := ma.sorts.Of(mt.Key()), ma.sorts.Of(mt.Elem())
-	add(ma.sorts.MapHas(ks, es), "(Array Int (Array "+ks+" Bool))", fresh)
-	add(ma.sorts.MapVal(ks, es), "(Array Int (Array "+ks+" "+es+"))", fresh)
-	add(MapLen, "Int", fresh)
+	add(ma.sorts.MapHasT(mt), "(Array Int (Array "+ks+" Bool))", fresh)
+	add(ma.sorts.MapValT(mt), "(Array Int (Array "+ks+" "+es+"))", fresh)
+	add(ma.sorts.MapLenT(mt), "Int", fresh)
 }
 
 func (ma *ModAnalysis) addrMods(addr ssa.Value, add func(string, string, int), ms *ModSet) {
@@ -309,7 +362,7 @@ func (ma *ModAnalysis) addrMods(addr ssa.Value, add func(string, string, int), m
 			switch bt := x.X.Type().Underlying().(type) {
 			case *types.Slice:
 				es := ma.sorts.Of(bt.Elem())
-				add(ma.sorts.ElemArray(es), es, ma.origin(x.X, 0))
+				add(ma.sorts.ElemArrayT(bt.Elem()), es, ma.origin(x.X, 0))
 				return
 			case *types.Pointer:
 				// pointer to array: the array lives in E_<elem>
@@ -319,7 +372,7 @@ func (ma *ModAnalysis) addrMods(addr ssa.Value, add func(string, string, int), m
 						return
 					}
 					es := ma.sorts.Of(at.Elem())
-					add(ma.sorts.ElemArray(es), es, ma.origin(x.X, 0))
+					add(ma.sorts.ElemArrayT(at.Elem()), es, ma.origin(x.X, 0))
 					return
 				}
 			}
@@ -358,11 +411,11 @@ func (ma *ModAnalysis) addrMods(addr ssa.Value, add func(string, string, int), m
 	}
 	if at, isArr := elem.Underlying().(*types.Array); isArr {
 		es := ma.sorts.Of(at.Elem())
-		add(ma.sorts.ElemArray(es), es, fresh)
+		add(ma.sorts.ElemArrayT(at.Elem()), es, fresh)
 		return
 	}
 	cs := ma.sorts.Of(elem)
-	add(ma.sorts.CellArray(cs), cs, fresh)
+	add(ma.sorts.CellArrayT(elem), cs, fresh)
 }
 
 // origin of a pointer/slice/map value: orFresh (allocated in this activation), orParam+i (the i-th
@@ -543,7 +596,7 @@ func (ma *ModAnalysis) callMods(fn *ssa.Function, cc *ssa.CallCommon, ms *ModSet
 			if cc.Method.Name() == "Read" && len(cc.Args) == 1 {
 				if sl, ok := cc.Args[0].Type().Underlying().(*types.Slice); ok {
 					es := ma.sorts.Of(sl.Elem())
-					add(ma.sorts.ElemArray(es), es, ma.origin(cc.Args[0], 0))
+					add(ma.sorts.ElemArrayT(sl.Elem()), es, ma.origin(cc.Args[0], 0))
 				}
 			}
 			return false
@@ -592,12 +645,12 @@ func (ma *ModAnalysis) callMods(fn *ssa.Function, cc *ssa.CallCommon, ms *ModSet
 		case "append":
 			if sl, ok := cc.Args[0].Type().Underlying().(*types.Slice); ok {
 				es := ma.sorts.Of(sl.Elem())
-				add(ma.sorts.ElemArray(es), es, ma.origin(cc.Args[0], 0))
+				add(ma.sorts.ElemArrayT(sl.Elem()), es, ma.origin(cc.Args[0], 0))
 			}
 		case "copy":
 			if sl, ok := cc.Args[0].Type().Underlying().(*types.Slice); ok {
 				es := ma.sorts.Of(sl.Elem())
-				add(ma.sorts.ElemArray(es), es, ma.origin(cc.Args[0], 0))
+				add(ma.sorts.ElemArrayT(sl.Elem()), es, ma.origin(cc.Args[0], 0))
 			}
 		case "delete":
 			ma.mapMods(cc.Args[0].Type().Underlying().(*types.Map), ma.origin(cc.Args[0], 0), add)
@@ -606,8 +659,23 @@ func (ma *ModAnalysis) callMods(fn *ssa.Function, cc *ssa.CallCommon, ms *ModSet
 	}
 	callee := cc.StaticCallee()
 	if callee == nil {
+		if ma.isPureFuncType(cc.Value.Type()) {
+			if !ms.FreshTop {
+				ms.FreshTop = true
+				return true
+			}
+			return false
+		}
+		if ma.isECFuncType(cc.Value.Type()) {
+			if !ms.EC {
+				ms.EC = true
+				return true
+			}
+			return false
+		}
 		if !ms.Top {
 			ms.Top = true
+			ms.TopWhy = fmt.Sprintf("call through function value of type %s in %s", cc.Value.Type(), ma.w.keyOfAny(fn))
 			return true
 		}
 		return false
@@ -635,6 +703,56 @@ func (ma *ModAnalysis) callMods(fn *ssa.Function, cc *ssa.CallCommon, ms *ModSet
 			}
 			return ch
 		}
+	}
+	if ma.defaultFrameOf(callee) == "EC" {
+		if !ms.EC {
+			ms.EC = true
+			ch = true
+		}
+		if !ms.Locks {
+			ms.Locks = true
+			ch = true
+		}
+		return ch
+	}
+	if cs, ok := ma.sets[callee]; ok && ma.Verified[callee] {
+		// the callee's FRAME obligations were all discharged: whatever it writes outside the EC frame is
+		// fresh memory, whatever the syntactic inference thought
+		for n, srt := range cs.Arrays {
+			if _, isEC := ma.ECArrays[n]; isEC {
+				add(n, srt, orOther)
+			} else {
+				add(n, srt, orFresh)
+			}
+		}
+		for n, srt := range cs.Fresh {
+			add(n, srt, orFresh)
+		}
+		for _, arrs := range cs.ByParam {
+			for n, srt := range arrs {
+				if _, isEC := ma.ECArrays[n]; isEC {
+					add(n, srt, orOther)
+				} else {
+					add(n, srt, orFresh)
+				}
+			}
+		}
+		for _, flag := range []*bool{&ms.EC, &ms.Locks, &ms.FreshTop} {
+			_ = flag
+		}
+		if cs.EC && !ms.EC {
+			ms.EC = true
+			ch = true
+		}
+		if cs.Locks && !ms.Locks {
+			ms.Locks = true
+			ch = true
+		}
+		if (cs.FreshTop || cs.Top) && !ms.FreshTop {
+			ms.FreshTop = true
+			ch = true
+		}
+		return ch
 	}
 	if cs, ok := ma.sets[callee]; ok {
 		if ms.union(cs, true) {
@@ -677,7 +795,7 @@ func (ma *ModAnalysis) callMods(fn *ssa.Function, cc *ssa.CallCommon, ms *ModSet
 			if i < len(cc.Args) {
 				if sl, ok := cc.Args[i].Type().Underlying().(*types.Slice); ok {
 					es := ma.sorts.Of(sl.Elem())
-					add(ma.sorts.ElemArray(es), es, ma.origin(cc.Args[i], 0))
+					add(ma.sorts.ElemArrayT(sl.Elem()), es, ma.origin(cc.Args[i], 0))
 				}
 			}
 		}
@@ -798,7 +916,7 @@ func (ma *ModAnalysis) classifyStore(fn *ssa.Function, b *ssa.BasicBlock, idx in
 				continue
 			}
 		}
-		if instrReaches(ci, u.ins, st) {
+		if instrReaches(ci, alloc, u.ins) && instrReaches(ci, u.ins, st) {
 			for _, f := range fields {
 				mark(f, "store to a fresh object after it was used")
 			}
@@ -907,9 +1025,39 @@ func instrReaches(ci *cfgInfo, a, b ssa.Instruction) bool {
 // AtCall: the effects of calling callee with the given argument operands: parameter-rooted writes are
 // attributed according to where the arguments come from in the caller.
 func (ma *ModAnalysis) AtCall(callee *ssa.Function, args []ssa.Value) *ModSet {
+	if ma.defaultFrameOf(callee) == "EC" {
+		ms := newModSet()
+		ms.EC = true
+		ms.Locks = true
+		return ms
+	}
 	cs, ok := ma.sets[callee]
 	if !ok {
 		return &ModSet{Top: true}
+	}
+	if ma.Verified[callee] {
+		ms := newModSet()
+		ms.EC, ms.Locks, ms.FreshTop = cs.EC, cs.Locks, cs.FreshTop || cs.Top
+		for n, srt := range cs.Arrays {
+			if _, isEC := ma.ECArrays[n]; isEC {
+				ms.Arrays[n] = srt
+			} else {
+				ms.Fresh[n] = srt
+			}
+		}
+		for n, srt := range cs.Fresh {
+			ms.Fresh[n] = srt
+		}
+		for _, arrs := range cs.ByParam {
+			for n, srt := range arrs {
+				if _, isEC := ma.ECArrays[n]; isEC {
+					ms.Arrays[n] = srt
+				} else {
+					ms.Fresh[n] = srt
+				}
+			}
+		}
+		return ms
 	}
 	if len(cs.ByParam) == 0 {
 		return cs
@@ -948,4 +1096,135 @@ func (ma *ModAnalysis) noteMutatedGlobal(g *ssa.Global, fn *ssa.Function) {
 		ma.MutatedGlobals[g] = map[string]bool{}
 	}
 	ma.MutatedGlobals[g][ma.w.keyOfAny(fn)] = true
+}
+
+func (ma *ModAnalysis) isPureFuncType(t types.Type) bool {
+	return ma.pureFuncTypes[types.TypeString(t, func(p *types.Package) string { return p.Name() })]
+}
+
+func (ma *ModAnalysis) isECFuncType(t types.Type) bool {
+	if ma.ecFuncTypes == nil {
+		return false
+	}
+	return ma.ecFuncTypes[types.TypeString(t, func(p *types.Package) string { return p.Name() })]
+}
+
+// resolveFrames turns the `frame` designators of the contract files into heap array names.
+func (ma *ModAnalysis) resolveFrames() {
+	ma.ECArrays = map[string]string{}
+	ma.ecFuncTypes = map[string]bool{}
+	if ma.sp == nil {
+		return
+	}
+	for _, ft := range ma.sp.FrameECFuncs {
+		ma.ecFuncTypes[strings.TrimSpace(ft)] = true
+	}
+	ma.pureFuncTypes = map[string]bool{}
+	for _, ft := range ma.sp.FramePureFuncs {
+		ma.pureFuncTypes[strings.TrimSpace(ft)] = true
+	}
+	for _, d := range ma.sp.FrameEC {
+		f := strings.Fields(d)
+		if len(f) < 2 {
+			ma.sp.errf("frame EC: bad designator %q", d)
+			continue
+		}
+		switch f[0] {
+		case "field":
+			// pkg.Type.field
+			parts := strings.Split(f[1], ".")
+			if len(parts) != 3 {
+				ma.sp.errf("frame EC: bad field %q", d)
+				continue
+			}
+			t, err := ma.w.LookupType(parts[0]+"."+parts[1], parts[0])
+			if err != nil {
+				ma.sp.errf("frame EC: %v", err)
+				continue
+			}
+			st, ok := t.Underlying().(*types.Struct)
+			found := false
+			if ok {
+				for i := 0; i < st.NumFields(); i++ {
+					if st.Field(i).Name() == parts[2] {
+						n, s := ma.sorts.FieldArray(t, i)
+						ma.ECArrays[n] = s
+						found = true
+					}
+				}
+			}
+			if !found {
+				ma.sp.errf("frame EC: no field %q", d)
+			}
+		case "map":
+			if len(f) != 3 {
+				ma.sp.errf("frame EC: bad map %q", d)
+				continue
+			}
+			kt, err1 := ma.w.LookupType(f[1], "object")
+			vt, err2 := ma.w.LookupType(f[2], "object")
+			if err1 != nil || err2 != nil {
+				ma.sp.errf("frame EC: bad map types %q", d)
+				continue
+			}
+			mt := types.NewMap(kt, vt)
+			ks, es := ma.sorts.Of(kt), ma.sorts.Of(vt)
+			ma.ECArrays[ma.sorts.MapHasT(mt)] = "(Array Int (Array " + ks + " Bool))"
+			ma.ECArrays[ma.sorts.MapValT(mt)] = "(Array Int (Array " + ks + " " + es + "))"
+			ma.ECArrays[ma.sorts.MapLenT(mt)] = "Int"
+		case "cell":
+			t, err := ma.w.LookupType(f[1], "object")
+			if err != nil {
+				ma.sp.errf("frame EC: %v", err)
+				continue
+			}
+			ma.ECArrays[ma.sorts.CellArrayT(t)] = ma.sorts.Of(t)
+		case "elems":
+			t, err := ma.w.LookupType(f[1], "object")
+			if err != nil {
+				ma.sp.errf("frame EC: %v", err)
+				continue
+			}
+			ma.ECArrays[ma.sorts.ElemArrayT(t)] = ma.sorts.Of(t)
+		default:
+			ma.sp.errf("frame EC: unknown designator %q", d)
+		}
+	}
+}
+
+// NonEC: the part of an effect set that lies outside the EC frame.
+func (ma *ModAnalysis) NonEC(arrs map[string]string) []string {
+	var out []string
+	for _, n := range sortedKeys(arrs) {
+		if _, ok := ma.ECArrays[n]; !ok {
+			out = append(out, n)
+		}
+	}
+	return out
+}
+
+// defaultFrameOf: "EC" when the function has no assigns clause of its own and its package declares EC as
+// the default frame (the function is then verified against that frame in the sweep), or when its contract
+// says `assigns EC`.
+func (ma *ModAnalysis) defaultFrameOf(fn *ssa.Function) string {
+	if ma.sp == nil {
+		return ""
+	}
+	if con := ma.sp.Contracts[ma.w.keyOfAny(fn)]; con != nil && con.HasAssigns {
+		for _, a := range con.Assigns {
+			if a == "EC" {
+				return "EC"
+			}
+		}
+		return ""
+	}
+	root := fn
+	for root.Parent() != nil {
+		root = root.Parent()
+	}
+	pk := fnPkg(root)
+	if pk == nil {
+		return ""
+	}
+	return ma.sp.DefaultFrame[shortPkg(pk.Pkg.Path())]
 }
